@@ -139,7 +139,7 @@ def checkFin (sc : Sc) (fin : List (String × String)) (leakNames : String) : Li
     if getB m "zcrecv" != ownZc then out := out ++ [s!"[C04,C13] side {side} zero-checksum receive flag {getB m "zcrecv"} differs from its own option {ownZc}"]
   -- delivery histories (in partial-reliability scenarios a lost or misdelivered message on ANY stream is also a C07 violation:
   -- abandoned messages must not block or destroy anything else)
-  let x07 := if sc.mode == "pr" then "C07," else ""
+  let x07 := if sc.mode == "pr" then "C07," else if sc.mode == "api" then "C18," else ""
   for st in sc.streams do
     let ws := msgsOf sc st.dir st.id
     let rs := readsOf sc (1 - st.dir) st.id
